@@ -415,6 +415,9 @@ pub fn glue_string(e: &EnumSpec, name: &str, inst: &str, src: &mut Src, _prop: &
             src.push("    fn err_count() -> usize { ERR_CNT.load(::std::sync::atomic::Ordering::SeqCst) }");
         }
     }
+    if e.derives("Display") && e.derives("EnumString") {
+        src.push("    fn parse_display(s: &str) -> Option<Option<String>> { Some(<Self as ::core::str::FromStr>::from_str(s).ok().map(|v| format!(\"{}\", v))) }");
+    }
     if e.derives("Display") {
         src.push("    fn disp(&self) -> Option<&dyn ::core::fmt::Display> { Some(self) }");
     }
